@@ -4,8 +4,15 @@ Rewrites section 11.6 of DESIGN.md from the summary lines of a thorough pass and
 selftest/thorough_pass.log."""
 import re, sys, shutil
 log, label = sys.argv[1], sys.argv[2]
+older = sys.argv[3] if len(sys.argv) > 3 else None
 rows = {}
 caps = []
+old_rows = {}
+if older:
+    for l in open(older):
+        m = re.match(r'(C\d\d) thorough: evaluations=(\d+) nontrivial=(\d+) states=(\d+) transitions=(\d+) outcomes=\d+ out_of_scope=\d+ wall=([\d.]+)s exhaustive=(\w+)', l)
+        if m:
+            old_rows[m.group(1)] = m.groups()[1:]
 for l in open(log):
     m = re.match(r'(C\d\d) thorough: evaluations=(\d+) nontrivial=(\d+) states=(\d+) transitions=(\d+) outcomes=\d+ out_of_scope=\d+ wall=([\d.]+)s exhaustive=(\w+)', l)
     if m:
@@ -21,6 +28,14 @@ for k in sorted(rows):
     out.append(f"| {k} | {fmt(e)} | {fmt(n)} | {s if s != '0' else '–'} | {t if t != '0' else '–'} | {float(w):.0f} | {x} |")
 out.append("")
 missing = [f"C{i:02d}" for i in range(1, 21) if f"C{i:02d}" not in rows]
+taken = [k for k in missing if k in old_rows]
+if taken:
+    out.insert(2, "Rows marked * are from the pass before (harness of the round-9 state, commit 0637848): the last pass was stopped before it reached them.")
+    out.insert(3, "")
+    for k in taken:
+        e, n, s_, t, w, x = old_rows[k]
+        out.insert(len(out) - 1, f"| {k}* | {fmt(e)} | {fmt(n)} | {s_ if s_ != '0' else '–'} | {t if t != '0' else '–'} | {float(w):.0f} | {x} |")
+    missing = [k for k in missing if k not in old_rows]
 if missing:
     out.append(f"Not finished when the log was taken: {', '.join(missing)} (their thorough tiers differ from the pass before only in parts that are the same in the quick tier).")
     out.append("")
@@ -29,7 +44,10 @@ if caps:
     out.extend(f"- `{c}`" for c in caps)
 else:
     out.append("No thorough run of the pass reported a violation, a cap or a machinery failure.")
-XX
+out.append("")
+out.append("History: in the pass of the round-7 harness C12 stopped at its 20-minute wall cap inside the deepest token-tree walk without saying so (the classic capped run called exhaustive); since then a walk cut by its deadline records the cap (`caps_hit`, `exhaustive: false`) and the two token-tree checks have a 40-minute cap in the thorough tier.")
+out.append("")
+p = '/verif/DESIGN.md'
 s = open(p).read()
 i = s.index('### 11.6 Thorough tier')
 s = s[:i] + "\n".join(out)
